@@ -79,11 +79,16 @@ def install_recorders(world, rec):
 
     class FakeIOLoopCls:
         def __new__(cls, *a, **k):
-            return FakeBg(rec)
+            bg = FakeBg(rec)
+            if k.get("make_current", True):
+                # tornado semantics: without make_current=False the new loop becomes the
+                # constructing thread's current loop
+                rec["current_override"] = bg
+            return bg
 
         @staticmethod
         def current(*a, **k):
-            return world.io
+            return rec.get("current_override") or world.io
     saved = (core.threading, core.IOLoop, core._dask_default_client)
     core.threading = FakeThreading
     core.IOLoop = FakeIOLoopCls
@@ -247,6 +252,53 @@ def _body(kinds, cfg):
         world.close()
 
 
+def body_two(shard, *v):
+    cfg = [pick(x, 0, 8) for x in v]
+    with untraced():
+        return _two(shard, cfg)
+
+
+def _two(shard, cfg):
+    """A blocking pipeline is built first (this creates the shared background loop), then an
+    unrelated pipeline is declared asynchronous in the same thread: it must be on the caller's
+    loop, not on the background one, and must not start a thread."""
+    vd = Verdict()
+    world = World()
+    rec = {"threads": [], "started": 0, "bg_loops": []}
+    saved = install_recorders(world, rec)
+    try:
+        A = world.io
+        first = make("Stream", None, {})
+        make(shard["blocking"], first, {})
+        started0 = rec["started"]
+        c = cfg[0]
+        a = (None, True, False)[c % 3]
+        l = (None, A, None)[c // 3]
+        kw = {}
+        if a is not None:
+            kw["asynchronous"] = a
+        if l is not None:
+            kw["loop"] = l
+        try:
+            e = make(shard["entry"], None, kw)
+            n = make(shard["node"], e, {})
+        except ValueError:
+            if a is False and l is A:
+                return vd.result()
+            vd.add("unexpected-ValueError@two-pipelines")
+            return vd.result()
+        if a is True or l is A:
+            for node, kind in ((e, shard["entry"]), (n, shard["node"])):
+                if node.loop is not A:
+                    vd.add("async-node-on-background-loop@%s" % kind)
+            if a is True and rec["started"] != started0:
+                vd.add("async-pipeline-started-a-thread")
+        return vd.result()
+    finally:
+        restore(saved)
+        world.close()
+
+
 class Comp:
     """Model of one connected pipeline: at most one loop and one mode."""
 
@@ -404,6 +456,12 @@ def obligations(tier):
                     if e == "from_textfile" and n1 == "buffer":
                         continue
                     add([e, n1, n2])
+    for blocking in ("timed_window", "buffer", "partition"):
+        for entry in ("Stream", "from_iterable", "from_periodic"):
+            for node in ("map", "buffer"):
+                obls.append({"name": "two-pipelines/%s-then-%s+%s" % (blocking, entry, node), "body": "body_two",
+                             "pre": "pre", "shard": {"blocking": blocking, "entry": entry, "node": node},
+                             "types": ["int"], "budget": 300})
     for e0 in ("Stream", "from_iterable"):
         for join in ("union", "zip"):
             for late in (("timed_window", "map") if q else ("timed_window", "buffer", "map", "sink")):
